@@ -4,7 +4,7 @@ import re
 from facts import walk, render, role, is_call, AnalysisBroken
 import tables
 import issues
-from engines import (ff, path, nth_arg, receiver, is_write_context, enclosing_conditions, enum_consts_in,
+from engines import (render_x, ff, path, nth_arg, receiver, is_write_context, enclosing_conditions, enum_consts_in,
                      case_labels_reaching, label_enum, paths, unwrap_defarg, returns)
 
 LEVEL = ('Static rules over the clang AST/CFG of /repo/src decide structural necessary conditions of C15: enum-keyed lookup '
@@ -330,18 +330,23 @@ def run(F, rep):
     rep.rule('C15.L4', 'error/warning/message/issue(index) return mIssues.at(<level vector>.at(index)) only under index < <same vector>.size(); the count functions return the same vector size')
     for acc, cnt_fn, vec in (('error', 'errorCount', 'mErrors'), ('warning', 'warningCount', 'mWarnings'), ('message', 'messageCount', 'mMessages'), ('issue', 'issueCount', 'mIssues')):
         f = F.fn1('libcellml::Logger::' + acc)
+        sub = {}
+        from engines import delegate, subst_names
+        dg = delegate(F, f)
+        if dg is not None and not any(n.get('k') == 'Call' and n.get('fn') in ('at', 'operator[]') and n.get('mc') for n in f.walk()):
+            f, sub = dg    # the accessor forwards to a file-local helper: judge the helper with the arguments spelled out
         ats = [n for n in f.walk() if n.get('k') == 'Call' and n.get('fn') in ('at', 'operator[]') and n.get('mc')]
         if not ats:
             raise AnalysisBroken('Logger::%s has no element access' % acc)
         good = True
         det = ''
         for n in ats:
-            rc = ff(f).rendered_conds_at(n) or set()
+            rc = {(subst_names(c_, sub), t_) for c_, t_ in (ff(f).rendered_conds_at(n) or set())}
             want = ('index < pFunc()->%s.size()' % vec, True)
             if want not in rc:
                 good = False
                 det = '`%s` is not guarded by `index < pFunc()->%s.size()` (guards: %s)' % (render(n), vec, sorted(rc))
-        outer = [render(n) for n in ats]
+        outer = [subst_names(render(n), sub) for n in ats]
         shape = ('pFunc()->mIssues.at(index)' in outer) if vec == 'mIssues' else ('pFunc()->mIssues.at(pFunc()->%s.at(index))' % vec in outer)
         rep.check(good and shape, 'C15.L4', 'Logger::%s|bound' % acc, f.where(), det or 'element access is %s' % outer, 'guarded by index < %s.size()' % vec)
         # initial value / fall-through result is null
@@ -369,7 +374,7 @@ def run(F, rep):
     for f in users:
         for n in f.walk():
             if n.get('k') == 'Call' and n.get('fn') == 'removeError':
-                a = render(nth_arg(n, 0))
+                a = render_x(f, nth_arg(n, 0))
                 loops = [x for x in f.ancestors(n) if x.get('k') == 'For']
                 ok = False
                 det = 'removeError(%s) is not inside a descending loop' % a
